@@ -90,7 +90,7 @@ def run(P, rep, tier):
                        'and every string that reaches the key of an insertion into the macro table is an identifier literal or the spelling of a token tested to be TK_IDENT (R17.16). '
                        'Round 9: a key function of a memo table derives the identity of the file open() reads - symlink-following query on its own parameter, record read only after success, (st_dev, st_ino) complete, full width, separated (R17.19); '
                        'a declaration is a write to the current scope\'s dictionary on EVERY path of the declaring function - structured must-analysis from each declarator() to the return / next declarator / scope change, excused only by '
-                       '"lookup hit and the current scope has no enclosing scope" (R17.20); the macro name of #define/#undef/#ifdef/#ifndef is a token of the directive\'s own line (R17.21: dispatcher explored on a directive name followed by a newline).')
+                       '"lookup hit and the current scope has no enclosing scope" (R17.20); the macro name of #define/#undef/#ifdef/#ifndef is a token of the directive\'s own line (R17.21: dispatcher explored on a directive name followed by a newline). Round 10: a function that seeds the tables of a scope record from another record copies every table member (derived from the record: all members of the table type), like into like, under the same conditions, before anything is entered into the destination scope (R17.22).')
     rep.assumptions += ['calloc succeeds', 'probe loops are analysed for 0..3 generic iterations; the facts checked are per-iteration facts',
                         'command-line words other than the -D/-U option word are arbitrary strings; the word after a detached -D/-U exists (the pre-scan of parse_args rejects the line otherwise)',
                         'fnv_hash is a pure function of the key bytes',
@@ -113,6 +113,7 @@ def run(P, rep, tier):
     r1719(P, rep)
     r1720(P, rep)
     r1721(P, rep)
+    r1722(P, rep)
 
 # ------------------------------------------------------------------ R17.17: a name is found under exactly its spelling ---
 _BYTE_CMP = ('strncmp', 'memcmp')
@@ -1609,6 +1610,12 @@ def r179(P, rep):
                 rep.ob('R17.9', 'main.c:define:plain-name-defined-as-1', vkey(a[0]) == ('sym', 'str') and a[1] == '1', '`-Dname` does not define `name` as 1 (define_macro%r)' % (tuple(a),), where='main.c:%d' % mu.fn('define').line)
         if not split or not plain:
             rep.undecided('R17.9', 'main.c:define:shape', 'define() has no path for an argument %s `=`' % ('with' if not split else 'without'))
+
+
+def r1722(P, rep):
+    """the tables of one Scope record are taken over together (all table members, like into like, same conditions, before any insertion)"""
+    from .. import lib_c17_copy as LC
+    _borrow(rep, 'R17.22', 'parse.c:table-seeding', lambda: LC.r1722(P, rep, 'R17.22'))
 
 
 def r1720(P, rep):
